@@ -1,0 +1,17 @@
+//go:build !verif
+
+package storage
+
+import "context"
+
+// Verification hooks compile to nothing unless built with -tags verif.
+func verifTrace(ctx context.Context, ev string, l *PartitionLog, a, b int64) {}
+
+func verifGate(ctx context.Context, point string, l *PartitionLog) {}
+
+func boolInt(b bool) int64 {
+	if b {
+		return 1
+	}
+	return 0
+}
